@@ -244,12 +244,16 @@ func c02Operator(op int) stackage.Operator {
 		return enumOp(0)
 	case 103:
 		return userOp{"~>", "follows"}
+	case 104: // a user's operator that files itself under the package's own context name
+		return cmpCtxOp("~=")
+	case 105: // a user's operator of integer kind, beyond the six built-in values
+		return enumOp(7)
 	}
 	return stackage.ComparisonOperator(op)
 }
 
 func (n gnode) refCond() string {
-	if n.Kw == "" || ((n.Op < 1 || n.Op > 6) && (n.Op < 101 || n.Op > 103)) {
+	if n.Kw == "" || ((n.Op < 1 || n.Op > 6) && (n.Op < 101 || n.Op > 105)) {
 		return ""
 	}
 	ex := n.Kids[0]
@@ -568,6 +572,9 @@ func c02Trees(c *Ctx) []gnode {
 		cond("e", 1, lf("")),
 		// user operators, two of them the zero value of their type
 		cond("cn", 101, lf("Jesse")), cond("cn", 102, lf("J*")), cond("cn", 103, lf("x")), {T: "cond", Kw: "cn", Op: 101, NoPad: true, Paren: true, Kids: []gnode{lf("Jesse")}},
+		cond("cn", 104, lf("Jesse")), cond("cn", 105, lf("J?")),
+		// a Condition over a Stack that holds nothing (yet): a valid Condition with a text of its own
+		cond("memberOf", 1, gnode{T: "stack", Kind: "LIST"}), cond("memberOf", 2, gnode{T: "stack", Kind: "AND", Paren: true}),
 		// an invalid Condition (no keyword; operator out of range) as the expression of a valid one: it contributes nothing
 		cond("outer", 1, cond("", 2, lf("v"))), cond("outer", 2, cond("k3", 9, lf("w"))), cond("outer", 3, cond("k4", 1, lf("")))}
 	var trees []gnode
